@@ -72,6 +72,32 @@ theorem counted_flatMap {α : Type} (p : P α) (w : α → Bytes) (xs : List α)
   simp only [this, if_false, Int.toNat_natCast]
   exact rep_flatMap p w xs rest h
 
+/-- the same when the value read back is a function of the value written -/
+theorem rep_map_flatMap {α β : Type} (p : P β) (w : α → Bytes) (f : α → β) : ∀ (xs : List α) (rest : Bytes),
+    (∀ x, x ∈ xs → ∀ rest', p (w x ++ rest') = .ok (f x, rest')) →
+    rep p xs.length (xs.flatMap w ++ rest) = .ok (xs.map f, rest) := by
+  intro xs
+  induction xs with
+  | nil => intro rest _; rfl
+  | cons x xs ih =>
+    intro rest h
+    simp only [List.length_cons, List.flatMap_cons, List.append_assoc, rep, List.map_cons]
+    rw [h x List.mem_cons_self]
+    simp only
+    rw [ih rest (fun y hy => h y (List.mem_cons_of_mem _ hy))]
+
+theorem counted_map_flatMap {α β : Type} (p : P β) (w : α → Bytes) (f : α → β) (xs : List α) (rest : Bytes)
+    (h : ∀ x, x ∈ xs → ∀ rest', p (w x ++ rest') = .ok (f x, rest')) :
+    counted (xs.length : Int) p (xs.flatMap w ++ rest) = .ok (xs.map f, rest) := by
+  unfold counted
+  have : ¬ ((xs.length : Int) < 0) := by omega
+  simp only [this, if_false, Int.toNat_natCast]
+  exact rep_map_flatMap p w f xs rest h
+
+theorem rBytes_append' (a rest : Bytes) : rBytes a.length (a ++ rest) = .ok (a, rest) := by
+  unfold rBytes
+  simp
+
 /-! ### well-formedness -/
 
 /-- sizes and ranges that the format can store (independent of the order of bins, chunks and tiles) -/
